@@ -32,6 +32,7 @@ type c12Query struct {
 	Inf     bool
 	Trace   string // output written before each answer (one char per answer), if any
 	Setup   string // program text consulted before the query
+	NoVar   int    // the query has no variable and this many answers
 	Gen     bool   // generator family: the answers are discovered by one sequential run to exhaustion
 	vals    []string
 	known   bool
@@ -46,6 +47,10 @@ var c12Queries = []c12Query{
 	{Name: "error1", Text: "(X = 1 ; throw(e)).", Answers: []int{1}, Err: "e"},
 	{Name: "error2", Text: "(X = 1 ; X = 2 ; throw(e)).", Answers: []int{1, 2}, Err: "e"},
 	{Name: "infinite-writing", Text: "repeat, put_char(r), X = 7.", Answers: []int{7}, Inf: true, Trace: "r"},
+	// answers that bind nothing at all (the answer's environment is the empty one)
+	{Name: "cut-only", Text: "!.", NoVar: 1},
+	{Name: "true-or-true", Text: "(! ; true).", NoVar: 1},
+	{Name: "two-empty", Text: "(true ; true).", NoVar: 2},
 }
 
 // c12Generators: every nondeterministic control construct, built-in and library predicate, each
@@ -85,6 +90,9 @@ func c12Discover(q *c12Query) {
 	if !q.Gen {
 		for _, a := range q.Answers {
 			q.vals = append(q.vals, fmt.Sprint(a))
+		}
+		for i := 0; i < q.NoVar; i++ {
+			q.vals = append(q.vals, "") // an answer without a value to compare
 		}
 		return
 	}
@@ -583,7 +591,7 @@ func c12Replay(b []byte) (string, string, bool) {
 func init() {
 	h.Register(&h.Check{
 		ID: "C12",
-		Rule: "(a) every call history over {Next, Scan, Err, Close} of length <= L on one Solutions, for 8 query kinds (0..3 answers, an error after 0, 1, 2 answers, an infinite generator; two of them write a character before each answer) - executed on the REAL interpreter.go/solutions.go whose channel operations and go statement are mechanically routed through a scheduler shim, under every interleaving of the consumer and the search goroutine with at most P preemptions; histories are walked breadth-first and keyed by (sequential model state, final scheduler-visible state of the goroutine over all interleavings, last call); (c) generator family: each of 45 nondeterministic control constructs, built-in and library predicates (between, member, nth0/nth1 in both modes, append, select, length, clause, retract, user clauses, current_op, sub_atom, atom_concat, current_prolog_flag, stream_property, call_nth, bagof, setof, catch, call/N, if-then-else, DCG phrase, left recursion, an error after two answers, a partial list, ...) followed by two goals with a visible side effect (a database update, which the engine performs at once, and output, which it defers; both orders), under 10 (thorough: 15) histories that close before the first, after the first, second, third and last answer or never, all interleavings; the answers are discovered by one sequential run to exhaustion, and exactly one side effect of each kind per answer handed out is required; (b) two Solutions of one interpreter: all pairs of histories of length <= L2 over {Next, Scan, Close}, all their merges, all interleavings of the three threads. Non-trivial/distinct = distinct state key / case.",
+		Rule: "(a) every call history over {Next, Scan, Err, Close} of length <= L on one Solutions, for 11 query kinds (0..3 answers, an error after 0, 1, 2 answers, an infinite generator, three queries without any variable whose answers carry the empty environment; two of them write a character before each answer) - executed on the REAL interpreter.go/solutions.go whose channel operations and go statement are mechanically routed through a scheduler shim, under every interleaving of the consumer and the search goroutine with at most P preemptions; histories are walked breadth-first and keyed by (sequential model state, final scheduler-visible state of the goroutine over all interleavings, last call); (c) generator family: each of 45 nondeterministic control constructs, built-in and library predicates (between, member, nth0/nth1 in both modes, append, select, length, clause, retract, user clauses, current_op, sub_atom, atom_concat, current_prolog_flag, stream_property, call_nth, bagof, setof, catch, call/N, if-then-else, DCG phrase, left recursion, an error after two answers, a partial list, ...) followed by two goals with a visible side effect (a database update, which the engine performs at once, and output, which it defers; both orders), under 10 (thorough: 15) histories that close before the first, after the first, second, third and last answer or never, all interleavings; the answers are discovered by one sequential run to exhaustion, and exactly one side effect of each kind per answer handed out is required; (b) two Solutions of one interpreter: all pairs of histories of length <= L2 over {Next, Scan, Close}, all their merges, all interleavings of the three threads. Non-trivial/distinct = distinct state key / case.",
 		Explanation: "state = (iterator model state, scheduler-visible state of channels and goroutine); transition = one call on the real Solutions object executed under the controlled scheduler; 'the call blocks' is the crisp verdict 'no enabled thread while the consumer is inside a call'; a goroutine leak is 'a search goroutine still parked at the end of a history that closed or exhausted its iterator'; 'no goal runs after Close' is checked on the output written by the query",
 		Assumptions: []string{"the rewriter (cmd/vrewrite) is purely syntactic and fails loudly on constructs it does not know; the shim models Go channel semantics (buffered/unbuffered, close) as in DESIGN.md Appendix B", "Scan before the first Next, after a false Next and after Close is unspecified: only termination is checked", "unsynchronised accesses are not visible to a cooperative scheduler: a separate free-running -race pass runs the same histories (C12 race pass)"},
 		Work:        c12Work,
